@@ -1,3 +1,4 @@
+from rtamt.exception.exception import RTAMTException
 from rtamt.semantics.time_interpreter import TimeInterpreter
 
 class DenseTimeInterpreter(TimeInterpreter):
@@ -44,7 +45,10 @@ class DenseTimeInterpreter(TimeInterpreter):
             e_unit = node.begin_unit
 
         # from the unit of the bound to the default unit
-        b = float(b * self.ast.U[b_unit] / self.ast.U[self.ast.unit])
-        e = float(e * self.ast.U[e_unit] / self.ast.U[self.ast.unit])
+        try:
+            b = float(b * self.ast.U[b_unit] / self.ast.U[self.ast.unit])
+            e = float(e * self.ast.U[e_unit] / self.ast.U[self.ast.unit])
+        except OverflowError:
+            raise RTAMTException('The operator bound is too large for a time stamp')
 
         return b, e
